@@ -54,7 +54,12 @@ def atom(r, extra_names=()):
     return lam(r, r.choice([1, 2]))
 
 
-def shapes(r, extra_names=(), table_names=()):
+# builtins that use an argument as a dict key: str(function) embeds a memory address, so a function used as a key makes
+# the outcome depend on allocator state (address reuse) - one seed would no longer be one execution
+KEYED = ('__getitem__', '__setitem__', '__setitem_with_op__', '__delitem__', 'get', 'remove', 'index_of', 'dict')
+
+
+def shapes(r, extra_names=(), table_names=(), no_functions=False):
     """A random argument list (0-4 args)."""
     n = weighted(r, [(0, 0.5), (1, 4), (2, 5), (3, 2.5), (4, 0.5)])
     args = []
@@ -62,6 +67,11 @@ def shapes(r, extra_names=(), table_names=()):
         x = r.random()
         if i == 0 and x < 0.8:
             args.append(['name', r.choice(list(HOST_NAMES) + list(extra_names))])
+        elif no_functions:
+            a = atom(r, extra_names)
+            while a[0] == 'lambda':
+                a = atom(r, extra_names)
+            args.append(a)
         elif x < 0.25:
             args.append(lam(r, r.choice([1, 1, 2])))
         elif x < 0.32 and table_names:
@@ -126,7 +136,7 @@ FN_PARAMS = ('f', 'fn', 'func', 'key', 'callback', 'cb', 'predicate', 'mapper')
 CONT_PARAMS = ('container', 'arr', 'value', 'values', 'lst', 'items', 'd', 'obj', 'v', 'args')
 
 
-def sig_args(r, orig, extra_names=()):
+def sig_args(r, orig, extra_names=(), keyed=False):
     """Arguments derived from the live function's own signature (host-side introspection): one per parameter, typed by
     parameter-name heuristics, with a callable slipped in where a string is expected now and then."""
     import inspect
@@ -145,8 +155,10 @@ def sig_args(r, orig, extra_names=()):
     for p in params[:n]:
         nm = p.name.lower()
         x = r.random()
-        if nm in FN_PARAMS:
+        if nm in FN_PARAMS and not (keyed and nm == 'key'):
             out.append(lam(r, r.choice([1, 1, 2])))
+        elif keyed and nm == 'key':
+            out.append(r.choice([['str', 'a'], ['str', 'k'], ['num', '0'], ['num', '1'], ['str', 'zz']]))
         elif nm in STR_PARAMS or 'str' in nm or 'flag' in nm:
             if x < 0.22:
                 out.append(r.choice([['lambda', ['p'], ['call', 'str', [['name', 'p']], 'plain']], ['lambda', ['p'], ['name', 'p']],
@@ -160,5 +172,8 @@ def sig_args(r, orig, extra_names=()):
         elif nm in CONT_PARAMS:
             out.append(['name', r.choice(list(HOST_NAMES) + list(extra_names))])
         else:
-            out.append(atom(r, extra_names))
+            a = atom(r, extra_names)
+            while keyed and a[0] == 'lambda':
+                a = atom(r, extra_names)
+            out.append(a)
     return out
